@@ -54,7 +54,9 @@ func render(id int, hist []l1.Call, seed int64) *rendered {
 			ip := fmt.Sprintf("10.%d.%d.%d", c.ID/250, c.ID%250, 1+rng.Intn(250))
 			port := 1024 + rng.Intn(60000)
 			var line string
-			switch c.ID % 3 {
+			switch c.ID % 4 {
+			case 3: // a key fingerprint followed by text that is not a certificate identity
+				line = fmt.Sprintf("%d Accepted publickey for %s from %s port %d ssh2: ED25519 SHA256:YI+caZKJCNaXgsD0NvRZ2fLaEeF46cEVyadru/SL76o, agent forwarding", pid, user, ip, port)
 			case 0:
 				line = fmt.Sprintf("%d Accepted password for %s from %s port %d ssh2", pid, user, ip, port)
 			case 1:
